@@ -46,6 +46,15 @@ struct Plan {
     msgs: Vec<u64>,      // P -> V arrival times
     transit: bool,       // P sends to Q through V's transit gate instead of to V
     lat: bool,           // P's link has a latency of one unit (messages are in transit)
+    abs: bool,           // restarts are requested with shutdow_and_restart_at(absolute time)
+}
+
+fn request(r: Option<u64>, abs: bool) {
+    match r {
+        None => current().shutdown(),
+        Some(r) if abs => current().shutdow_and_restart_at(SimTime::now() + hs(r)),
+        Some(r) => current().shutdow_and_restart_in(hs(r)),
+    }
 }
 
 struct V {
@@ -73,14 +82,12 @@ impl Module for V {
             if self.plan.by_task {
                 let s1 = self.plan.s1;
                 let r1 = self.plan.r1;
+                let abs = self.plan.abs;
                 let l = self.log.clone();
                 tokio::spawn(async move {
                     sleep_until(SimTime::from_duration(hs(s1))).await;
                     lg(&l, "V.req1".into());
-                    match r1 {
-                        None => current().shutdown(),
-                        Some(r) => current().shutdow_and_restart_in(hs(r)),
-                    }
+                    request(r1, abs);
                 });
             } else {
                 schedule_at(Message::default().kind(90), SimTime::from_duration(hs(self.plan.s1)));
@@ -104,17 +111,11 @@ impl Module for V {
         match m.header().kind {
             90 => {
                 lg(&self.log, "V.req1".into());
-                match self.plan.r1 {
-                    None => current().shutdown(),
-                    Some(r) => current().shutdow_and_restart_in(hs(r)),
-                }
+                request(self.plan.r1, self.plan.abs);
             }
             91 => {
                 lg(&self.log, "V.req2".into());
-                match self.plan.s2.unwrap().1 {
-                    None => current().shutdown(),
-                    Some(r) => current().shutdow_and_restart_in(hs(r)),
-                }
+                request(self.plan.s2.unwrap().1, self.plan.abs);
             }
             k => {
                 lg(&self.log, format!("V.msg{k}"));
@@ -242,7 +243,7 @@ struct Facts {
 }
 
 fn plan_json(p: &Plan) -> Value {
-    json!({"s1": p.s1, "r1": p.r1, "by_task": p.by_task, "d1": p.d1, "d2": p.d2, "s2": p.s2.map(|(d, r)| json!([d, r])), "msgs": p.msgs, "transit": p.transit, "latency": p.lat, "unit": "half seconds"})
+    json!({"s1": p.s1, "r1": p.r1, "by_task": p.by_task, "d1": p.d1, "d2": p.d2, "s2": p.s2.map(|(d, r)| json!([d, r])), "msgs": p.msgs, "transit": p.transit, "latency": p.lat, "absolute_restart_time": p.abs, "unit": "half seconds"})
 }
 fn plan_from(v: &Value) -> Plan {
     Plan {
@@ -255,6 +256,7 @@ fn plan_from(v: &Value) -> Plan {
         msgs: v["msgs"].as_array().unwrap().iter().map(|m| m.as_u64().unwrap()).collect(),
         transit: v["transit"].as_bool().unwrap(),
         lat: v["latency"].as_bool().unwrap_or(false),
+        abs: v["absolute_restart_time"].as_bool().unwrap_or(false),
     }
 }
 
@@ -401,7 +403,7 @@ impl Property for C09 {
     }
     fn rule(&self, tier: Tier) -> String {
         format!(
-            "timelines in half-second units: first shutdown at {{4,6}} x restart delay {{none,0,2,5}} x requested from {{handler, task}} x old task deadline {{2,4,6,7,11,30}} x new task sleep {{1,3}} x second shutdown {{none, +2 no restart, +2 restart 2, +3 restart 0}}              x message route {{to the victim, through a transit gate of the victim}} x {{direct, over a latency channel}} x every set of up to {} arrival times from {{1,3,4,5,6,8,9,11,13,16}}; plus shutdown requested in each of 3 start stages x restart {{none,0,3}};              oracle: expectation computed from the plan: no callback, task step or timer of the victim inside an inert window, messages inside it dropped (also through its transit gate) and never delivered later, reset once per shutdown, start stages once at exactly the restart time, old tasks never resume, task captures dropped, peer receives exactly the echoes;              an event at exactly the shutdown/restart instant is a tie and accepted either way; non-trivial = timeline with a message or deadline strictly inside an inert window",
+            "timelines in half-second units: first shutdown at {{4,6}} x restart delay {{none,0,2,5}} x requested from {{handler, task}} x old task deadline {{2,4,6,7,11,30}} x new task sleep {{1,3}} x second shutdown {{none, +2 no restart, +2 restart 2, +3 restart 0}}              x message route {{to the victim, through a transit gate of the victim}} x {{direct, over a latency channel}} x restart requested by delay or (direct case) by absolute time x every set of up to {} arrival times from {{1,3,4,5,6,8,9,11,13,16}}; plus shutdown requested in each of 3 start stages x restart {{none,0,3}};              oracle: expectation computed from the plan: no callback, task step or timer of the victim inside an inert window, messages inside it dropped (also through its transit gate) and never delivered later, reset once per shutdown, start stages once at exactly the restart time, old tasks never resume, task captures dropped, peer receives exactly the echoes;              an event at exactly the shutdown/restart instant is a tie and accepted either way; non-trivial = timeline with a message or deadline strictly inside an inert window",
             tier.pick(2, 3)
         )
     }
@@ -451,12 +453,15 @@ impl Property for C09 {
                                     continue;
                                 }
                                 for transit in [false, true] {
-                                    for lat in [false, true] {
+                                    for (lat, abs) in [(false, false), (true, false), (false, true)] {
+                                        if abs && r1.is_none() {
+                                            continue;
+                                        }
                                         for msgs in &sets {
                                             if !ctx.mine() {
                                                 continue;
                                             }
-                                            let plan = Plan { s1, r1, by_task, d1, d2, s2, msgs: msgs.clone(), transit, lat };
+                                            let plan = Plan { s1, r1, by_task, d1, d2, s2, msgs: msgs.clone(), transit, lat, abs };
                                             let mut f = Facts::default();
                                             ctx.begin(|| plan_json(&plan));
                                             let r = run_plan(&plan, &mut f);
